@@ -117,7 +117,18 @@ func c10CoreBody(rc *RunCtx) {
 
 	steps := 2 + tp.Pick(4)
 	for i := 0; i < steps && s.Viol == nil; i++ {
-		switch tp.Pick(4) {
+		switch tp.Pick(5) {
+		case 4: // root key rotation through the API (sys/rotate/root)
+			hist = append(hist, "sys/rotate/root")
+			from := disk.LogLen()
+			if _, err := h.RootWrite("sys/rotate/root", nil); err != nil {
+				viol("valid-operation-refused", map[string]any{"op": "rotate-root"}, "sys/rotate/root failed with no fault injected: %v", err)
+				return
+			}
+			if !crashCheck("rotate-root", from, h.Keys, t, nil, 0) {
+				return
+			}
+			write(300 + i)
 		case 0: // seal, then unseal with duplicates / foreign shares / any order
 			hist = append(hist, "seal+unseal")
 			if err := h.Core.Seal(h.Root); err != nil {
